@@ -376,6 +376,35 @@ Definition set_sc_empirical_covariance {F M : Type} (c : st_cluster F M) (v : M)
 Definition set_sc_stacked_data_mean {F M : Type} (c : st_cluster F M) (v : list F) : st_cluster F M :=
   mk_st_cluster (sc_size c) (sc_member_points c) (sc_empirical_covariance c) v.
 
+(* ---- 2-D fancy indexing and small matrix helpers (matrix_compression.py) ---- *)
+(* np.triu_indices(n): row and column indices of the upper triangle incl. the diagonal, row-major *)
+Definition np_triu_indices (n : Z) : list Z * list Z :=
+  let k := Z.to_nat n in
+  (flat_map (fun r => repeat (Z.of_nat r) (k - r)) (seq 0 k),
+   flat_map (fun r => map Z.of_nat (seq r (k - r))) (seq 0 k)).
+(* a[(rows, cols)] *)
+Definition np_take2 {F : Type} (a : arr2 F) (rows cols : list Z) : res (list F) :=
+  if Nat.eqb (length rows) (length cols) then mapM (fun rc => np_get2 a (fst rc) (snd rc)) (combine rows cols)
+  else Raise "IndexError".
+(* a[(rows, cols)] = values : one value per index pair (a length-1 values array would be broadcast by NumPy: rendered as an error) *)
+Definition np_put2 {F : Type} (a : arr2 F) (rows cols : list Z) (vals : list F) : res (arr2 F) :=
+  if Nat.eqb (length rows) (length cols) && Nat.eqb (length rows) (length vals) then
+    foldM (fun acc rcv => np_set2 acc (fst (fst rcv)) (snd (fst rcv)) (snd rcv)) (combine (combine rows cols) vals) a
+  else Raise "ValueError".
+(* a.T, a.diagonal(), np.diag(v) for a 1-D v, elementwise a (op) b of equal shapes *)
+Definition arr2_transpose {F : Type} (d : F) (a : arr2 F) : arr2 F :=
+  mk_arr2 (a_cols a) (a_rows a)
+          (map (fun j => map (fun i => nth j (nth i (a_cells a) []) d) (seq 0 (Z.to_nat (a_rows a)))) (seq 0 (Z.to_nat (a_cols a)))).
+Definition arr2_diagonal {F : Type} (d : F) (a : arr2 F) : list F :=
+  map (fun i => nth i (nth i (a_cells a) []) d) (seq 0 (Z.to_nat (Z.min (a_rows a) (a_cols a)))).
+Definition arr2_of_diag {F : Type} (zero : F) (v : list F) : arr2 F :=
+  let n := length v in
+  mk_arr2 (Z.of_nat n) (Z.of_nat n)
+          (map (fun i => map (fun j => if Nat.eqb i j then nth i v zero else zero) (seq 0 n)) (seq 0 n)).
+Definition arr2_bin {F : Type} (f : F -> F -> F) (a b : arr2 F) : res (arr2 F) :=
+  if same_dims a b then Ret (mk_arr2 (a_rows a) (a_cols a) (py_map2 (py_map2 f) (a_cells a) (a_cells b)))
+  else Raise "ValueError".
+
 (* ---- facts used by every equivalence proof ---- *)
 Lemma bind_ret {A B : Type} (a : A) (f : A -> res B) : bind (Ret a) f = f a.
 Proof. reflexivity. Qed.
